@@ -64,7 +64,8 @@ PROBES = ['replies_reordered', 'replies_held_late', 'handle_sequences',
           'parallel_requests', 'real_server', 'storage_short_reads',
           'storage_partial_write', 'storage_full', 'size_withheld_refused',
           'copy_into_itself', 'sparse_copy', 'hole_layouts',
-          'trailing_hole']
+          'trailing_hole', 'read_without_block_size',
+          'source_truncated_under_real_server']
 
 _base = [None]
 
@@ -110,6 +111,9 @@ def gen_plan(rng):
         if kind == 'read':
             op['off'] = rng.choice([0, 0, 1, size // 2, size, size + 5])
             op['n'] = rng.choice([-1, 0, 1, size // 3 + 1, size, size + 10])
+            # block_size None / 0: "each read is a single request" -- but
+            # read() to the end of the file still returns all of it
+            op['one_request'] = rng.choice([False, False, False, None, 0])
         elif kind == 'write':
             op['off'] = rng.choice([0, 0, 1, 10, size // 2])
             op['base'] = rng.choice([0, size // 2, size + 7])
@@ -185,6 +189,11 @@ def gen_plan(rng):
                   'partial_write_at': rng.below(10) if rng.chance(50)
                   else None,
                   'then': rng.choice(['fine', 'fine', 'full'])}
+
+        if not sparse and rng.chance(25):
+            # the source loses its tail between the moment its size is
+            # looked up and the moment it is read (somebody truncates it)
+            srv_io['eof_frac'] = rng.choice([0, 100, 500, 900, 999])
 
     if sparse:
         # hole layouts: [[kind, length], ...]; the file really is sparse
@@ -339,6 +348,10 @@ def valid_plan(plan):
                      any(not 250 <= x <= 1000 for x in io['short_reads'])):
                 return False
 
+            if io.get('eof_frac') is not None and \
+                    (plan['sparse'] or not 0 <= io['eof_frac'] <= 1000):
+                return False
+
             if io['partial_write_at'] is not None and \
                     not 0 <= io['partial_write_at'] <= 1000:
                 return False
@@ -439,6 +452,14 @@ def run_plan(plan, sched_seed=None, sched_replay=None):
         """The real server on a disk that reads and writes short"""
 
         def read(self, file_obj, offset, size):
+            cut = iostat.get('eof_at')
+
+            if cut is not None:
+                if offset >= cut:
+                    return b''
+
+                size = min(size, cut - offset)
+
             k = iostat['reads']
             iostat['reads'] += 1
             shorts = io.get('short_reads')
@@ -511,6 +532,17 @@ def run_plan(plan, sched_seed=None, sched_replay=None):
                 policy['announce_size'] = size
             else:
                 policy.pop('eof_at', None)
+                # (and the size announced for the previous operation's file)
+                policy.pop('announce_size', None)
+
+            iostat['eof_at'] = None
+
+            if real and io.get('eof_frac') is not None and \
+                    kind in ('get', 'copy') and size > 0:
+                eof_at = size * io['eof_frac'] // 1000
+                iostat['eof_at'] = eof_at
+                policy['eof_at'] = eof_at
+                sim.probes['source_truncated_under_real_server'] += 1
                 policy.pop('announce_size', None)
 
             if op.get('layout') and real:
@@ -677,8 +709,14 @@ def run_plan(plan, sched_seed=None, sched_replay=None):
                 elif kind == 'read':
                     set_remote(rname, src)
 
-                    async with sftp.open(rname, 'rb', block_size=bs,
-                                         max_requests=mr) as f:
+                    obs = op.get('one_request', False)
+
+                    if obs is not False:
+                        sim.probes['read_without_block_size'] += 1
+
+                    async with sftp.open(rname, 'rb',
+                                         block_size=bs if obs is False
+                                         else obs, max_requests=mr) as f:
                         got = await f.read(op['n'], op['off'])
 
                     n, off = op['n'], op['off']
